@@ -158,7 +158,7 @@ func c14Run(cas c14Case) (sig string, err error) {
 			total += op.N
 		}
 	}
-	if total > 40*c13Frame {
+	if total > 1000*c13Frame {
 		return "invalid-case", fmt.Errorf("case too long")
 	}
 	m := machine.NewHW(c14ROM, nil, false)
@@ -366,6 +366,25 @@ func TestC14(t *testing.T) {
 		"Distinct = (source, LYC, operation list).")
 	defer c.Flush()
 	c.RunReplays()
+
+	// long uninterrupted runs: every request of 300 frames for each source (wrapping frame counters must not
+	// shift or drop any)
+	c.Sub("long-run", func(t *testing.T) {
+		for i, src := range c14Sources {
+			if !c.Env.Mine(i) {
+				continue
+			}
+			cas := c14Case{Src: src, LYC: uint8(37 * i), Ops: []c14Op{{K: "on"}, {K: "run", N: 300*c13Frame + 200}}}
+			sig, err := c14Run(cas)
+			c.Sample("long-run", cas)
+			c.Bulk("long-run", 1, 1)
+			if err != nil {
+				if known, first := c.FailFirst("lcdirq", sig, err.Error(), cas); !known && first {
+					t.Errorf("%v", err)
+				}
+			}
+		}
+	})
 
 	c.Sub("sources-x-lyc", func(t *testing.T) {
 		lycs := c14LYCs()
